@@ -5,7 +5,7 @@ import re
 COMMON_TB = [
     "Lean 4.33.0 kernel (leanchecker re-check in thorough runs); axioms allowed: propext, Classical.choice, Quot.sound",
     "hand-written Lean model of the Rust source (lean/Postcard/Model), tied to /repo only by this run's differential correspondence (harness/ vs pcmodel)",
-    "the Rust harness (harness/src), the s-expression codecs on both sides, this driver",
+    "the Rust harness (harness/src; built with overflow-checks and debug-assertions, `poison` calls before every op, buffers at rotating alignments), the alternate-configuration harness (harness_alloc: alloc + heapless, no use-std) where the property has an alt_config, the s-expression codecs on both sides, this driver",
 ]
 SERDE_TB = "serde trait plumbing, serde's impls for std types and serde-derive output are MODELLED (which calls a type makes; visitors pull exactly len elements; out-of-range variant index = custom error)"
 CORE_TB = "libcore behaviour MODELLED: core::str::from_utf8, char::encode_utf8, f32/f64 to_bits/from_bits (bit preserving), integer casts"
